@@ -356,7 +356,10 @@ ExchangeFail(c) ==
   /\ conns[c].cut \/ conns[c].peerDown \/ TimedOut(conns[c].cur[1])
   /\ LET r == conns[c].cur[1]  i == conns[c].cur[2] IN
        /\ rq' = Resolve(r, i, "fail", << >>)
-       /\ IF r = 0 /\ disc.pc = "sent" THEN disc' = [disc EXCEPT !.pc = "got", !.ok = FALSE] ELSE UNCHANGED disc
+       \* (an unanswered or lost metadata refresh is an error for update(); the discover loop goes on)
+       /\ IF r = 0 /\ disc.pc = "sent"
+            THEN disc' = [disc EXCEPT !.pc = IF Bug = "stopOnRefreshTimeout" THEN "stopped" ELSE "got", !.ok = FALSE]
+            ELSE UNCHANGED disc
        /\ IF Bug = "releaseOnFail" /\ ~conns[c].gclosed
             THEN /\ conns' = [conns EXCEPT ![c].st = "idle", ![c].cur = <<0, 0>>, ![c].failed = TRUE]
                  /\ pool' = [pool EXCEPT !.idle[conns[c].grp] = Append(@, c)]
